@@ -268,6 +268,7 @@ pub fn unary_ops(cfg: &GenCfg) -> BoxedStrategy<Op> {
     if cfg.window_group {
       if cfg.allowed("window") {
         v.push((2, (1usize..=4).prop_map(Op::Window).boxed()));
+        v.push((1, (1usize..=3).prop_map(Op::WindowCounts).boxed()));
       }
       if cfg.allowed("group_by") {
         v.push((2, (1i64..=3).prop_map(Op::GroupBy).boxed()));
@@ -494,6 +495,9 @@ pub struct CaseCfg {
   pub unsub: bool,
   pub reactions: bool,
   pub advance: bool,
+  /// with probability 1/4 the caller drops its Observable handle somewhere after the first
+  /// subscribe, while subscriptions are still alive
+  pub drop_observable: bool,
   pub hot_script: usize,
 }
 
@@ -506,6 +510,7 @@ impl Default for CaseCfg {
       unsub: false,
       reactions: false,
       advance: false,
+      drop_observable: false,
       hot_script: 5,
     }
   }
@@ -586,6 +591,14 @@ pub fn case(cfg: &CaseCfg) -> BoxedStrategy<Case> {
       for (pos, ms) in &advances {
         let at = 1 + idx(*pos, actions.len() - 1);
         actions.insert(at.min(actions.len()), Action::Advance(*ms));
+      }
+      if cfg.drop_observable {
+        if let Some((pos, kind, _)) = extras.first() {
+          if kind % 4 == 0 {
+            let at = 1 + idx(*pos, actions.len() - 1);
+            actions.insert(at.min(actions.len()), Action::DropObservable);
+          }
+        }
       }
       let mut recorders: Vec<Vec<Reaction>> = vec![Vec::new(); nrec.max(1)];
       let mut nrec_total = nrec;
@@ -696,7 +709,7 @@ pub fn chain(cfg: &GenCfg, min_ops: usize, max_ops: usize) -> BoxedStrategy<Node
 pub fn boundary_param(op: &Op, len: usize) -> bool {
   let b = |n: usize| n == 0 || n == 1 || n + 1 == len || n == len || n == len + 1;
   match op {
-    Op::Take(n) | Op::TakeLast(n) | Op::Skip(n) | Op::SkipLast(n) | Op::ElementAt(n) | Op::Buffer(n) | Op::Window(n) => b(*n),
+    Op::Take(n) | Op::TakeLast(n) | Op::Skip(n) | Op::SkipLast(n) | Op::ElementAt(n) | Op::Buffer(n) | Op::Window(n) | Op::WindowCounts(n) => b(*n),
     _ => false,
   }
 }
